@@ -59,6 +59,9 @@ theorem new_mem_read (m : Machine) (a : BitVec 16) : (Mem.new m).read a = 0 := b
     | (exfalso; omega)
     | (simp [Mem.new, Array.getElem?_replicate]; try (split <;> rfl))
 
+theorem new_ramByte (m : Machine) (rb off : Nat) : (Mem.new m).ramByte rb off = 0 := by
+  cases m <;> simp only [Mem.new, Mem.ramByte, getD_replicate] <;> split <;> rfl
+
 /-- a CPU with interrupts disabled at an instruction boundary, on a machine whose memory is still
 the all-zero power-on memory and whose frames have not been touched -/
 structure Idle (m : Machine) (s : Cpu) (z : VBus) : Prop where
